@@ -499,8 +499,24 @@ def vtype(ctx):
     ex = [x for x in f2r.exits()]
     okf = False
     det = ''
+    r = None
     if len(ex) == 1 and ex[0]['expr'][0] == 'agg' and ex[0]['expr'][1].endswith('Region'):
         r = dict(ex[0]['expr'][2])
+    else:
+        # built with the crate's constructors / builders, possibly in several arms: one value per field
+        tabs = struct_result_tables(f2r, ['visibility', 'name', 'doc', 'type_ref', 'is_base'])
+        if tabs is not None:
+            r = {}
+            for k_, rows_ in tabs.items():
+                if len(rows_) == 1:
+                    r[k_] = rows_[0][1]
+                else:
+                    rw = rewrapped_option([([(expand(f2r, c_), l_) for c_, l_ in cs_], v_) for cs_, v_ in rows_])
+                    if rw is None:
+                        r = None
+                        break
+                    r[k_] = rw
+    if r is not None:
         fa = [i for i in range(1, f2r.nargs + 1) if f2r.local_ty(i) == '&' + FUNCTION]
         det = show(ex[0]['expr'])[:300]
         if fa:
